@@ -347,6 +347,45 @@ func runC19(r *vk.Run) {
 				}
 			}
 			c.Count("law:or", 1)
+			// `a or b and c` (no parentheses) = a ∪ (b ∩ c): the one mixed form whose grouping is the
+			// same under every reading and is pinned by the suite
+			h := genStatelessFilter(rng, ds)
+			if strings.HasPrefix(h.Text, "| ") {
+				ha := strings.TrimPrefix(h.Text, "| ")
+				rh, err := c19Eval(c, ds, n, qt+" "+h.Text)
+				if err != nil {
+					c.Fail("", "h failed: "+err.Error(), det(nil))
+					return
+				}
+				for _, sep := range []string{" and ", ", "} {
+					text := qt + " | " + fa + " or " + ga + sep + ha
+					rmix, err := c19Eval(c, ds, n, text)
+					if err != nil {
+						c.Fail("", "a or b and c failed: "+text+": "+err.Error(), det(nil))
+						return
+					}
+					want := map[int64]bool{}
+					for ts := range rf {
+						want[ts] = true
+					}
+					for ts := range rg {
+						if _, ok := rh[ts]; ok {
+							want[ts] = true
+						}
+					}
+					same := len(want) == len(rmix)
+					for ts := range want {
+						if _, ok := rmix[ts]; !ok {
+							same = false
+						}
+					}
+					if !same {
+						c.Fail("", fmt.Sprintf("`a or b%sc` selects %d records, a ∪ (b ∩ c) has %d: %s", sep, len(rmix), len(want), text), det(map[string]any{"h": h, "a": keysOf(rf), "b": keysOf(rg), "c": keysOf(rh), "mixed": keysOf(rmix)}))
+						return
+					}
+					c.Count("law:or-and-mixed", 1)
+				}
+			}
 		}
 		// neutral filter
 		re, err := c19Eval(c, ds, n, qt+` |= ""`)
